@@ -80,7 +80,7 @@ func CleanDomain(addr string) (string, error) {
 		return addr, err
 	}
 
-	uDomain, err := idna.ToUnicode(dns.LowerASCII(domain))
+	uDomain, err := idna.ToUnicode(dns.LowerASCII(norm.NFC.String(domain)))
 	if err != nil {
 		return addr, err
 	}
